@@ -24,7 +24,19 @@ def run(run: core.Run, tier: str):
       "channel or as one list), quantized_relu x is_quantized_clip x relu_upper_bound (None, 0.0, on-grid "
       "below / at / above the largest code, off-grid) x leaky slope, every reader of the module-level _sigmoid "
       "(quantized_sigmoid, quantized_tanh, quantized_relu(use_sigmoid=1)) x mode at construction x mode at "
-      "call, and construct-with-decoy-then-assign-attributes")
+      "call, and construct-with-decoy-then-assign-attributes; PLUS histories on ONE object of every class "
+      "(fixedq_hist): sequences of {call on a tensor of rank 0..5 / batch 1 as ndarray, tf.constant or "
+      "tf.Variable; min()/max()/range() in any order; assignment of a public attribute (bits, integer, "
+      "symmetric, keep_negative, alpha, negative_slope, relu_upper_bound, is_quantized_clip, use_sigmoid, "
+      "use_real_*) with the value as int / np.int64 / np.int32, bool / int / np.bool_, float / np.float32 / "
+      "np.float64 / 0-d ndarray; _set_trainable_parameter(); handing the object to QDense / QConv1D / QConv2D / "
+      "QDepthwiseConv2D / QSeparableConv1D/2D / QActivation in every role; set_internal_sigmoid}: fixed "
+      "templates (call-flip symmetric-call both ways, used-then-trainable, reporters-then-layer, every role, "
+      "every attribute, alpha assigned, auto_po2 and back) plus random histories; after every step the outputs "
+      "and reporters are compared bit for bit with a FRESH twin built from the current attributes and with the "
+      "Lean state machine (QKV.Model.FixedQObj), and each call is one record judged by the clauses against the "
+      "format of the CURRENT attributes (under the data-dependent scale of auto_po2: given the scale the object "
+      "reports)")
   fixedq.compare(run, recs)
   import numpy as np
   for r in recs:
